@@ -3,6 +3,7 @@ import PhyVerif.Driver.Rat
 import PhyVerif.Driver.C01
 import PhyVerif.Model.C04
 import PhyVerif.Model.C04c
+import PhyVerif.Model.C04f
 namespace PhyVerif.Driver
 open Lean PhyVerif.C04
 
@@ -46,6 +47,15 @@ def jLoadErr04 : LoadErr → Json
   | .nonMonotone => Json.mkObj [("error", Json.str "non_monotone")]
   | .conflict w => Json.mkObj [("error", Json.str ("conflict " ++ w))]
 
+def jSparse04 (s : Sparse) : Json :=
+  Json.mkObj [("data", jArr04 s.data), ("cols", jOpt jArr04 s.cols), ("rows", jOpt jArr04 s.rows)]
+
+def jFullErr04 : FullErr → Json
+  | .base e => jLoadErr04 e
+  | .shape w => Json.mkObj [("error", Json.str ("shape " ++ w))]
+  | .scalarAttr f => Json.mkObj [("error", Json.str ("scalar_attr " ++ f))]
+  | .curatedWithoutTemplates => Json.mkObj [("error", Json.str "curated_without_templates")]
+
 /-- `load_full`: the whole of `_load_data` (`C04.loadFull`).  Raw data files are given by their sizes
 in bytes (rows through `C01.memmapRows`, cells are ids `row * ncd + col` of the concatenated
 recording); `items` are the row indices at which `model.traces[...]` is evaluated. -/
@@ -67,11 +77,12 @@ def runLoadFull04 (j : Json) : R Json := do
     | .ok v => asList asItem v
     | .error _ => pure []
   match loadFull (β := Nat) (fun a => a) rate tden ncd one raw d with
-  | .error (.base e) => pure (jLoadErr04 e)
-  | .error (.shape w) => pure (Json.mkObj [("error", Json.str ("shape " ++ w))])
-  | .error (.scalarAttr f) => pure (Json.mkObj [("error", Json.str ("scalar_attr " ++ f))])
-  | .error .curatedWithoutTemplates => pure (Json.mkObj [("error", Json.str "curated_without_templates")])
+  | .error e => pure (jFullErr04 e)
   | .ok (fv, d') =>
+    match loadFeatures d' fv.nTemplates, loadTemplateFeatures d' fv.nTemplates with
+    | .error e, _ => pure (jFullErr04 e)
+    | _, .error e => pure (jFullErr04 e)
+    | .ok feats, .ok tfeats =>
     let v := fv.base
     let positions := match fv.positions with
       | .file a => Json.mkObj [("file", jArr04 a)]
@@ -91,6 +102,7 @@ def runLoadFull04 (j : Json) : R Json := do
       ("wm", jArr04 fv.wm), ("wmi", jOpt jArr04 v.wmi), ("similar", jArr04 fv.similar),
       ("spike_attributes", Json.mkObj (fv.spikeAttributes.map fun na => (na.1, jArr04 na.2))),
       ("traces", traces), ("n_samples", jOpt jNat fv.nSamples), ("duration", jRat fv.duration),
+      ("features", jOpt jSparse04 feats), ("template_features", jOpt jSparse04 tfeats),
       ("files_after", jList (fun (f : String × Arr) => Json.str f.1) d')])
 
 def runC04 (op : String) (j : Json) : R Json := do
